@@ -156,7 +156,7 @@ def build_incremental(env, cls, cfg, faults=None, ctor_kwargs=None):
     labels = LABELSETS[cfg.get('labels', 1)]
     model = UFModel(env, names, labels=labels, faults=faults, reads=cfg.get('_reads'),
                     varying_labels=cfg.get('varlabels', False))
-    loss = UFLoss(env, faults=faults)
+    loss = UFLoss(env, faults=faults, flavor=cfg.get('loss_type', 'py'))
     dynamic = cfg.get('mode', 'static') == 'dynamic'
     alpha = None
     if dynamic:
